@@ -143,37 +143,18 @@ func pipelines(c *core.Ctx) []*pipeline {
 				}
 				pl := &pipeline{fn: fn, call: call, journal: call.Call.Args[0], resolved: true}
 				res = append(res, pl)
-				sl, ok := call.Call.Args[1].(*ssa.Slice)
-				if !ok {
-					if core.IsNilConst(call.Call.Args[1]) {
-						return // no processors
-					}
-					pl.resolved, pl.why = false, "processor list is not a slice literal"
+				if core.IsNilConst(call.Call.Args[1]) {
+					return // no processors
+				}
+				els, why := processorList(call.Call.Args[1], 0)
+				if why != "" {
+					pl.resolved, pl.why = false, why
 					return
 				}
-				arr, ok := sl.X.(*ssa.Alloc)
-				if !ok || arr.Referrers() == nil {
-					pl.resolved, pl.why = false, "processor list is not a local array"
-					return
-				}
-				type el struct {
-					idx int64
-					v   ssa.Value
-				}
-				var els []el
-				for _, r := range *arr.Referrers() {
-					if ia, ok := r.(*ssa.IndexAddr); ok {
-						i, _ := core.ConstInt(ia.Index)
-						for _, st := range core.StoresTo(ia) {
-							els = append(els, el{i, st.Val})
-						}
-					}
-				}
-				sort.Slice(els, func(a, b int) bool { return els[a].idx < els[b].idx })
-				for _, e := range els {
-					st := resolveStage(p, e.v, 3)
+				for _, ev := range els {
+					st := resolveStage(p, ev, 3)
 					if st == nil {
-						pl.resolved, pl.why = false, "a processor is not a constructor call or a literal: "+describeValue(p, e.v)
+						pl.resolved, pl.why = false, "a processor is not a constructor call or a literal: "+describeValue(p, ev)
 						continue
 					}
 					pl.stages = append(pl.stages, st)
@@ -183,4 +164,77 @@ func pipelines(c *core.Ctx) []*pipeline {
 		sort.Slice(res, func(i, j int) bool { return res[i].call.Pos() < res[j].call.Pos() })
 		return res
 	})
+}
+
+
+// processorList resolves the processors handed to Journal.Process, in order:
+// a slice literal, a slice literal returned by a helper function, or such a
+// list extended by append. why != "" if the list has another shape.
+func processorList(v ssa.Value, depth int) (els []ssa.Value, why string) {
+	if depth > 3 {
+		return nil, "processor list built through too many helpers"
+	}
+	switch x := core.Strip(v).(type) {
+	case *ssa.Slice:
+		arr, ok := x.X.(*ssa.Alloc)
+		if !ok || arr.Referrers() == nil {
+			return processorList(x.X, depth+1)
+		}
+		type el struct {
+			idx int64
+			v   ssa.Value
+		}
+		var tmp []el
+		for _, r := range *arr.Referrers() {
+			if ia, ok := r.(*ssa.IndexAddr); ok {
+				i, _ := core.ConstInt(ia.Index)
+				for _, st := range core.StoresTo(ia) {
+					tmp = append(tmp, el{i, st.Val})
+				}
+			}
+		}
+		sort.Slice(tmp, func(a, b int) bool { return tmp[a].idx < tmp[b].idx })
+		for _, e := range tmp {
+			els = append(els, e.v)
+		}
+		return els, ""
+	case *ssa.Call:
+		if b, ok := x.Call.Value.(*ssa.Builtin); ok && b.Name() == "append" {
+			base, w := processorList(x.Call.Args[0], depth+1)
+			if w != "" {
+				if !core.IsNilConst(x.Call.Args[0]) {
+					return nil, w
+				}
+				base = nil
+			}
+			more, w := processorList(x.Call.Args[1], depth+1)
+			if w != "" {
+				return nil, w
+			}
+			return append(base, more...), ""
+		}
+		callee := x.Call.StaticCallee()
+		if callee == nil || callee.Blocks == nil {
+			return nil, "processor list is the result of a dynamic call"
+		}
+		var rets []ssa.Value
+		core.EachInstr(callee, func(ins ssa.Instruction) {
+			if ret, ok := ins.(*ssa.Return); ok && len(ret.Results) >= 1 {
+				rets = append(rets, ret.Results[0])
+			}
+		})
+		if len(rets) != 1 {
+			return nil, "processor list comes from a helper with several return statements"
+		}
+		return processorList(rets[0], depth+1)
+	case *ssa.UnOp:
+		// a local variable assigned once
+		if al, ok := x.X.(*ssa.Alloc); ok {
+			sts := core.AllStoresToCell(al)
+			if len(sts) == 1 {
+				return processorList(sts[0].Val, depth+1)
+			}
+		}
+	}
+	return nil, "processor list is not a slice literal"
 }
